@@ -437,10 +437,15 @@ def same_term(a, b):
 
 
 # ---------------------------------------------------------------- context
+# every n-th discharged obligation of a process is re-decided by cvc5
+XCHECK = {'every': 0, 'n': 0, 'ms': 3000}
+
+
 class Stats:
     FIELDS = ('paths', 'aborted', 'decisions', 'forks', 'queries',
               'solver_s', 'obligations', 'discharged', 'violated',
-              'unknown', 'realizations', 'exceptions')
+              'unknown', 'realizations', 'exceptions',
+              'xchecked', 'xagree', 'xunknown', 'xdisagree')
 
     def __init__(self):
         for f in self.FIELDS:
@@ -919,6 +924,9 @@ class SymCtx:
         if r == z3.unsat:
             self.stats.discharged += 1
             self.path_obligations.append(label)
+            XCHECK['n'] += 1
+            if XCHECK['every'] and XCHECK['n'] % XCHECK['every'] == 0:
+                self._xcheck(z3.Not(c), label)
             return True
         if r == z3.sat:
             self.stats.violated += 1
@@ -927,6 +935,52 @@ class SymCtx:
         self.stats.unknown += 1
         self.unknown_labels.append(label)
         return None
+
+    def _xcheck(self, negc, label):
+        """second opinion on a discharged obligation: the same query (its
+        cone of influence) is handed to cvc5 as SMT-LIB text.  `sat` from
+        cvc5 where z3 said `unsat` makes the run inconclusive."""
+        try:
+            import cvc5
+        except ImportError:
+            return
+        t = time.time()
+        allc = list(self.solver.assertions())
+        core_, _rest = self._slice(allc, [negc])
+        f = z3.Solver()
+        f.add(core_)
+        f.add(negc)
+        txt = f.to_smt2()
+        res = 'unknown'
+        try:
+            slv = cvc5.Solver()
+            slv.setOption('tlimit-per', str(XCHECK['ms']))
+            slv.setLogic('ALL')
+            ps = cvc5.InputParser(slv)
+            ps.setStringInput(cvc5.InputLanguage.SMT_LIB_2_6, txt, 'q')
+            sm = ps.getSymbolManager()
+            while True:
+                cmd = ps.nextCommand()
+                if cmd.isNull():
+                    break
+                out = cmd.invoke(slv, sm).strip()
+                if out in ('sat', 'unsat', 'unknown'):
+                    res = out
+                elif out:
+                    res = 'unknown'     # (error ...) or anything else
+        except Exception:
+            res = 'unknown'
+        self.stats.xchecked += 1
+        if res == 'unsat':
+            self.stats.xagree += 1
+        elif res == 'sat':
+            self.stats.xdisagree += 1
+            self.stats.unknown += 1
+            self.unknown_labels.append(
+                f"SOLVER DISAGREEMENT (z3 unsat, cvc5 sat): {label}")
+        else:
+            self.stats.xunknown += 1
+        self.stats.solver_s += time.time() - t
 
     def lemma(self, cond, label):
         """proof obligation that, once discharged, is added to the path
